@@ -348,6 +348,21 @@ def probe_dimlink(it, pr, ctx, case, flags):
         # and linking again replaces the ticks
         d2.link_data_array(tgt, raw_index)
         compare("after-relink", cur)
+        if pr["n"] % 3 == 0:
+            # removing the link never removes (or changes) the linked array
+            d3 = holder.dimensions[0]
+            try:
+                d3.remove_link()
+                flags.add("dimlink:remove_link")
+                d4 = holder.dimensions[0]
+                if d4.has_link or d3.has_link:
+                    ctx.violation("C05/dimlink/range/remove_link/still-linked", case, {})
+                bh2 = it.handle(blk)
+                if tname not in bh2.data_arrays or not np.array_equal(np.asarray(bh2.data_arrays[tname][:]), cur) \
+                        or bh2.data_arrays[tname].id != tgt.id:
+                    ctx.violation("C05/dimlink/range/remove_link/target-changed", case, {})
+            except Exception as exc:  # noqa
+                ctx.violation("C05/dimlink/range/remove_link/raised", case, {"raised": type(exc).__name__})
 
 
 def probe_append(it, pr, ctx, case, flags):
